@@ -1335,6 +1335,12 @@ def reviewed(F, table, who, rest=None, extra_live=()):
             kw = k[: -len(rest) - 1]
         if kw not in live:
             stale.append(k)
+    def qual(name):
+        name = name[: -len(rest) - 1] if rest is not None and name.endswith(":" + rest) else name
+        return name.rsplit("::", 1)[0] if "::" in name else ""
+    if len(stale) > 1:
+        # several stale entries (other configurations' sites are stale here too): keep those of the same type / module
+        stale = [k for k in stale if qual(k) == qual(who)]
     if len(stale) == 1:
         return table[stale[0]] if isinstance(table, dict) else True
     return None
